@@ -1,0 +1,36 @@
+package scanner
+
+import (
+	"testing"
+
+	"github.com/logrange/logrange/pkg/storage"
+)
+
+// a file one scan does not find keeps its descriptor (and offset) for one more scan; two scans in a row forget it
+func TestMergeDescsKeepsMissedFileForOneScan(t *testing.T) {
+	s, err := NewScanner(NewDefaultConfig(), storage.NewDefaultStorage())
+	if err != nil {
+		t.Fatal(err)
+	}
+	od := &desc{Id: "id1", File: "/nonexistent/app.log", Offset: 17, LastSeenSize: 17}
+	old := descs{"id1": od}
+
+	md := s.mergeDescs(old, descs{}) // the scan does not find the file
+	if md["id1"] != od || od.getOffset() != 17 {
+		t.Fatal("the descriptor of a file missing from one scan must be kept, got ", md)
+	}
+	// found again: same descriptor, same offset
+	md2 := s.mergeDescs(md, descs{"id1": &desc{Id: "id1", File: od.File, LastSeenSize: 20}})
+	if md2["id1"] != od || od.getOffset() != 17 || od.getLastSeenSize() != 20 {
+		t.Fatal("a file that is found again must keep its offset, got ", md2)
+	}
+	// missing from two scans in a row: forgotten
+	md3 := s.mergeDescs(md2, descs{})
+	if md3["id1"] != od {
+		t.Fatal("expected the descriptor to be kept after the first miss, got ", md3)
+	}
+	md4 := s.mergeDescs(md3, descs{})
+	if len(md4) != 0 {
+		t.Fatal("a file missing from two scans in a row must be forgotten, got ", md4)
+	}
+}
